@@ -3,16 +3,17 @@
 # the real paths in a mount namespace of its own (needs root), so that several seeded changes can be tested at the
 # same time and /repo itself is never touched.  Prints the check's summary lines.
 patch="$1"; shift
+vsrc="${VSRC:-/verif}"   # the copy of /verif to test (an engineering copy while a check is being strengthened)
 tag=$(basename "$patch" .patch)-$$
 root=/tmp/par/$tag
 mkdir -p $root/repo $root/verif
 rsync -a --exclude .git /repo/ $root/repo/
-rsync -a --exclude .git --exclude replays /verif/ $root/verif/
+rsync -a --exclude .git --exclude replays $vsrc/ $root/verif/
 mkdir -p $root/verif/replays
 ( cd $root/repo && git init -q . >/dev/null 2>&1 && git add -A >/dev/null 2>&1 && git -c user.email=x -c user.name=x commit -q -m base >/dev/null 2>&1 )
 unshare -m sh -c "
   mount --bind $root/repo /repo && mount --bind $root/verif /verif || exit 9
-  cd /repo && git apply '$patch' || { echo 'PATCH DOES NOT APPLY'; exit 8; }
+  cd /repo && { [ '$patch' = none ] || git apply '$patch' || { echo 'PATCH DOES NOT APPLY'; exit 8; }; }
   cd /verif
   for p in $*; do
     ./check \$p > /tmp/par/$tag.\$p.log 2>&1
